@@ -244,6 +244,12 @@ class Arr(object):
             self.ld, self.off = max(1, r), 0
             L = r * c
             self.shape = (r, c)
+        elif lay == 'tall':
+            # a matrix with two rows more than the operand and NO ld / offset keywords: the wrapper's default leading
+            # dimension is this matrix's own row count, the operand sits in its leading r rows
+            self.ld, self.off = max(1, r) + 2, 0
+            L = self.ld * c
+            self.shape = (self.ld, c)
         else:
             self.ld, self.off = max(1, r) + lay[0], lay[1]
             L = self.off + ((c - 1) * self.ld + r if (c > 0 and r > 0) else 0) + tail
@@ -293,12 +299,12 @@ class Arr(object):
 
     def kw(self, name):
         """ld / offset keywords (only for explicit layouts)"""
-        if self.lay is None:
+        if self.lay is None or self.lay == 'tall':
             return {}
         return {'ld' + name: self.ld, 'offset' + name: self.off}
 
     def kwo(self, name):
-        if self.lay is None:
+        if self.lay is None or self.lay == 'tall':
             return {}
         return {'offset' + name: self.off}
 
@@ -1659,6 +1665,16 @@ def fam_evx(case, c):
                 if jobz == 'V' and mret > 0:
                     c.err('eig', R.eig_err(Af, Z.mat().sub(0, n, 0, mret), w),
                           '%s:decomposition:range=%s,uplo=%s' % (name, rng, uplo), 'A Z = Z diag(w), Z^H Z = I', sub2)
+                if jobz == 'V' and lay is None and n > 0 and zc > 0:
+                    # Z taller than A, default ldZ (= Z.size[0]): eigenvectors in the leading n rows, nothing else written
+                    A = Arr(tc, n, n, Aj, None); W = Arr('d', n, 1); Zt = Arr(tc, n, zc, None, 'tall')
+                    kw2 = dict(rkw, jobz='V', uplo=uplo, range=rng, Z=Zt.M)
+                    st, mret2 = c.call(name, fn, (A.M, W.M), kw2, 'ok', name, sub)
+                    c.unchanged(Zt, name + ':footprint:Z:tall', 'Z (n+2 rows, default ldZ) after ' + name, sub)
+                    if st == 'ok' and mret2 == len(idx) and mret2 > 0:
+                        c.err('eig', R.eig_err(Af, Zt.mat().sub(0, n, 0, mret2), W.vec(mret2)),
+                              '%s:decomposition:tall-Z:range=%s,uplo=%s' % (name, rng, uplo),
+                              'A Z = Z diag(w), Z^H Z = I with Z in the leading rows of a taller matrix', sub2)
         # documented argument constraints: 1 <= il <= iu <= n and vl < vu
         if n > 0 and lay is None:
             for bad in ({'range': 'I', 'il': 0, 'iu': 1}, {'range': 'I', 'il': 2, 'iu': 1}, {'range': 'I', 'il': 1, 'iu': n + 1},
